@@ -1,0 +1,46 @@
+//go:build verif
+
+// Verification hook (build tag verif only): read-only views of a SecureChannel
+// used by the data path checks (C07, C09). No behaviour is changed.
+
+package uasc
+
+// VerifMaxBodySize returns the per-chunk body limit of the active token
+// (0 while the channel is not open).
+func (s *SecureChannel) VerifMaxBodySize() uint32 {
+	inst, err := s.getActiveChannelInstance()
+	if err != nil {
+		return 0
+	}
+	return inst.maxBodySize
+}
+
+// VerifPendingChunkIDs returns the number of request ids for which
+// intermediate chunks are buffered.
+func (s *SecureChannel) VerifPendingChunkIDs() int {
+	s.chunksMu.Lock()
+	defer s.chunksMu.Unlock()
+	return len(s.chunks)
+}
+
+// VerifHandlerCount returns the number of registered response handlers.
+func (s *SecureChannel) VerifHandlerCount() int {
+	s.handlersMu.Lock()
+	defer s.handlersMu.Unlock()
+	return len(s.handlers)
+}
+
+// VerifActiveIDs returns the channel and token id of the active token.
+func (s *SecureChannel) VerifActiveIDs() (channelID, tokenID uint32, ok bool) {
+	inst, err := s.getActiveChannelInstance()
+	if err != nil {
+		return 0, 0, false
+	}
+	return inst.secureChannelID, inst.securityTokenID, true
+}
+
+// VerifDisconnected returns the channel the dispatcher goroutine closes when
+// it stops (read-only view; nil-safe to wait on only after Open was called).
+func (s *SecureChannel) VerifDisconnected() <-chan struct{} {
+	return s.disconnected
+}
